@@ -209,12 +209,20 @@ def apiUpdate (rejects : Obj → Bool) (dry : Bool) (oc : Outcome) (s : Store) (
 /-- result of one goroutine / of a phase -/
 inductive R (α : Type) where
   | ok (a : α) | err (e : Err) | crash
-  deriving Repr
+  deriving Repr, DecidableEq
 
 /-- a package object as parsed -/
 structure Desired where
   key : String
   body : Nat
+  deriving DecidableEq, Repr
+
+/-- a `status.objectRefs` entry. `kinded = false`: apiVersion and kind are empty, because
+the typed client clears TypeMeta on an object it has just created and `establish`
+builds the reference from that object; `ReleaseObjects` cannot look such a reference up. -/
+structure Ref where
+  key : String
+  kinded : Bool
   deriving DecidableEq, Repr
 
 /-- `currentDesired` (Exists = `current.isSome`) -/
@@ -275,19 +283,20 @@ def validateAll (rejects : Obj → Bool) (fault : Fault) (p : Parent) (control :
 
 /-- one goroutine of `establish` -/
 def establishOne (rejects : Obj → Bool) (fault : Fault) (p : Parent) (control : Bool)
-    (s : Store) (i : Nat) (cd : CD) : Store × R String :=
+    (s : Store) (i : Nat) (cd : CD) : Store × R Ref :=
   match cd.current with
   | none =>
     if control then
-      liftW cd.desired.key (apiCreate rejects false (fault i .real) s { cd.desired with owners := createRefs p })
-    else (s, .ok cd.desired.key)
+      liftW ⟨cd.desired.key, false⟩
+        (apiCreate rejects false (fault i .real) s { cd.desired with owners := createRefs p })
+    else (s, .ok ⟨cd.desired.key, true⟩)
   | some cur =>
     match updateSub p control cur cd.desired with
     | .error e => (s, .err e)
-    | .ok sub => liftW cd.desired.key (apiUpdate rejects false (fault i .real) s sub)
+    | .ok sub => liftW ⟨cd.desired.key, true⟩ (apiUpdate rejects false (fault i .real) s sub)
 
 def establishAll (rejects : Obj → Bool) (fault : Fault) (p : Parent) (control : Bool) :
-    Store → List (Nat × CD) → Store × R (List String)
+    Store → List (Nat × CD) → Store × R (List Ref)
   | s, [] => (s, .ok [])
   | s, (i, cd) :: rest =>
     match establishOne rejects fault p control s i cd with
@@ -311,7 +320,7 @@ def pickCD (cds : List (Nat × CD)) (order : List Nat) : List (Nat × CD) :=
 
 /-- `APIEstablisher.Establish` -/
 def establish (rejects : Obj → Bool) (fault : Fault) (p : Parent) (control : Bool)
-    (s : Store) (objs : List Desired) (vorder eorder : List Nat) : Store × R (List String) :=
+    (s : Store) (objs : List Desired) (vorder eorder : List Nat) : Store × R (List Ref) :=
   match validateAll rejects fault p control s (pick objs vorder) with
   | (s1, .ok cds) => establishAll rejects fault p control s1 (pickCD cds eorder)
   | (s1, .err e) => (s1, .err e)
@@ -331,8 +340,9 @@ def releaseSub (p : Parent) (cur : Obj) : Option Obj :=
   | none => some { cur with owners := cur.owners ++ [asOwner p] }
 
 def releaseOne (rejects : Obj → Bool) (fault : Fault) (p : Parent) (ran : Nat → Bool)
-    (s : Store) (i : Nat) (key : String) : Store × R Unit :=
-  if !ran i then (s, .err .other)   -- ctx.Done(): another goroutine failed first
+    (s : Store) (i : Nat) (ref : Ref) : Store × R Unit :=
+  if !ref.kinded then (s, .err .other)   -- the lookup of a reference without a kind fails
+  else if !ran i then (s, .err .other)   -- ctx.Done(): another goroutine failed first
   else
     match fault i .get with
     | .crashBefore => (s, .crash)
@@ -340,7 +350,7 @@ def releaseOne (rejects : Obj → Bool) (fault : Fault) (p : Parent) (ran : Nat 
     | .fail => (s, .err .other)
     | .conflict => (s, .err .other)
     | .ok =>
-      match s.get key with
+      match s.get ref.key with
       | none => (s, .ok ())
       | some cur =>
         match releaseSub p cur with
@@ -348,7 +358,7 @@ def releaseOne (rejects : Obj → Bool) (fault : Fault) (p : Parent) (ran : Nat 
         | some sub => liftW () (apiUpdate rejects false (fault i .real) s sub)
 
 def releaseAll (rejects : Obj → Bool) (fault : Fault) (p : Parent) (ran : Nat → Bool) :
-    Store → List (Nat × String) → Store × R Unit
+    Store → List (Nat × Ref) → Store × R Unit
   | s, [] => (s, .ok ())
   | s, (i, k) :: rest =>
     match releaseOne rejects fault p ran s i k with
@@ -361,7 +371,66 @@ def releaseAll (rejects : Obj → Bool) (fault : Fault) (p : Parent) (ran : Nat 
 
 /-- `APIEstablisher.ReleaseObjects` over `status.objectRefs = refs` -/
 def release (rejects : Obj → Bool) (fault : Fault) (p : Parent) (ran : Nat → Bool)
-    (s : Store) (refs : List String) (order : List Nat) : Store × R Unit :=
+    (s : Store) (refs : List Ref) (order : List Nat) : Store × R Unit :=
   releaseAll rejects fault p ran s (pick refs order)
+
+/-! ### the revision reconciler (`Reconciler.Reconcile`, the part that concerns package objects) -/
+
+/-- a package revision: its metadata, desired state and the objects its image declares -/
+structure Rev where
+  parent : Parent
+  active : Bool
+  objs : List Desired
+
+/-- everything one reconcile does not control: API rejections, faults, goroutine
+orders, and the (unstable) sort applied to the references before they are stored -/
+structure Env where
+  rejects : Obj → Bool
+  fault : Fault
+  vorder : List Nat
+  eorder : List Nat
+  rorder : List Nat
+  ran : Nat → Bool
+  sortRefs : List Ref → List Ref
+
+/-- the cluster: package objects and `status.objectRefs` of every revision (by uid) -/
+structure Sys where
+  store : Store
+  refs : Nat → List Ref
+
+def setRefs (refs : Nat → List Ref) (u : Nat) (ks : List Ref) : Nat → List Ref :=
+  fun v => if v = u then ks else refs v
+
+/-- Establish, then `pr.SetObjects(sorted refs)` and the status update -/
+def establishAndRecord (sys : Sys) (s : Store) (r : Rev) (e : Env) : Sys × R Unit :=
+  match establish e.rejects e.fault r.parent r.active s r.objs e.vorder e.eorder with
+  | (s', .ok ks) => (⟨s', setRefs sys.refs r.parent.uid (e.sortRefs ks)⟩, .ok ())
+  | (s', .err x) => (⟨s', sys.refs⟩, .err x)
+  | (s', .crash) => (⟨s', sys.refs⟩, .crash)
+
+/-- One reconcile of a revision: an inactive revision first releases what its status
+references and is done if that list is not empty; otherwise (and for an active
+revision) the package is established with `control = active`. -/
+def reconcileRev (sys : Sys) (r : Rev) (e : Env) : Sys × R Unit :=
+  if r.active then establishAndRecord sys sys.store r e
+  else
+    match release e.rejects e.fault r.parent e.ran sys.store (sys.refs r.parent.uid) e.rorder with
+    | (s1, .ok ()) =>
+      if (sys.refs r.parent.uid).length > 0 then (⟨s1, sys.refs⟩, .ok ())
+      else establishAndRecord sys s1 r e
+    | (s1, .err x) => (⟨s1, sys.refs⟩, .err x)
+    | (s1, .crash) => (⟨s1, sys.refs⟩, .crash)
+
+/-- a history: revisions reconciled one after the other, in any order, each with its
+own desired state at that time, faults and goroutine orders -/
+def runHistory : Sys → List (Rev × Env) → Sys
+  | sys, [] => sys
+  | sys, (r, e) :: rest => runHistory (reconcileRev sys r e).1 rest
+
+/-! ### Kubernetes garbage collection (simstore `GCStep`) -/
+
+/-- the garbage collector deletes an object that has owner references none of whose owners is alive -/
+def gcCollects (live : Nat → Bool) (o : Obj) : Bool :=
+  !o.owners.isEmpty && o.owners.all fun r => !live r.uid
 
 end Xp.C16
